@@ -225,4 +225,116 @@ def absRun [Mul K] (pre : PrefixesN K) (dflt : Dict (Entry K)) (c : Contents K) 
 /-- a new registry over the table `t` -/
 def fresh (t : Dict (Entry K)) : Reg K := { tab := .base t, derived := [] }
 
+/-! ### the string route in front of the look-up: `Unit(str, registry=reg)` with `_unit_object_cache`
+
+  `unyt/unit_object.py::Unit.__new__`: a string that is a key of `registry._unit_object_cache` is
+  answered with the cached object WITHOUT parsing or looking anything up; otherwise the string is
+  parsed (`parse_unyt_expr`: rewrites, alias table), the symbol is looked up (write-back included),
+  and the new object is stored under the RAW string.  `add` / `remove` / `modify` end — when they
+  succeed — with `_unit_object_cache.clear()`; a loaded registry starts with an empty cache.
+  Whether they do is the regenerated `CacheCfg`. -/
+
+/-- what a `Unit` built from a single-name string holds -/
+inductive UnitR (K : Type)
+  /-- `Unit("")`: the dimensionless unit, no symbol -/
+  | one
+  /-- expression symbol `s`, data of the entry `e` -/
+  | sym (s : Name) (e : Entry K)
+
+structure CacheCfg where
+  addClears : Bool
+  removeClears : Bool
+  modifyClears : Bool
+  /-- a registry made by `from_json` / unpickling starts with an empty string cache -/
+  reloadEmpty : Bool
+deriving DecidableEq, Repr
+
+def CacheCfg.sound (c : CacheCfg) : Bool := c.addClears && c.removeClears && c.modifyClears && c.reloadEmpty
+
+structure RegS (K : Type) where
+  reg : Reg K
+  /-- `UnitRegistry._unit_object_cache`: raw string ↦ the object, latest first -/
+  cache : List (Name × UnitR K)
+
+inductive OpS (K : Type)
+  /-- `Unit(name, registry=reg)` for a string that is a single name -/
+  | unit (name : Name)
+  | op (o : Op K)
+
+inductive OutS (K : Type)
+  /-- the unit (`none`: the construction raised) -/
+  | unit (u : Option (UnitR K))
+  | out (o : Out K)
+
+/-- the static part of the string route: parser globals, alias tables, prefixes -/
+structure Route (K : Type) where
+  globals : List Name
+  inv : NameTree
+  rewritten : Dict Name
+  pre : PrefixesN K
+
+/-- the symbol a non-empty string is parsed to (`none`: a parser global, not a unit) -/
+def Route.symbolOf (rt : Route K) (name : Name) : Option Name :=
+  nameToSymbol rt.globals rt.inv rt.rewritten (parserRewrite name)
+
+def stepS [Mul K] (cfg : Cfg) (cc : CacheCfg) (rt : Route K) (dflt : Dict (Entry K)) (r : RegS K) :
+    OpS K → RegS K × OutS K
+  | .unit name =>
+    match findN name r.cache with
+    | some u => (r, .unit (some u))
+    | none =>
+      if name = 0 then ({ r with cache := (name, .one) :: r.cache }, .unit (some .one))
+      else match rt.symbolOf name with
+        | none => (r, .unit none)
+        | some s =>
+          match step cfg rt.pre dflt r.reg (.look s) with
+          | (reg1, .entry (some e)) => ({ reg := reg1, cache := (name, .sym s e) :: r.cache }, .unit (some (.sym s e)))
+          | (reg1, _) => ({ r with reg := reg1 }, .unit none)
+  | .op o =>
+    match step cfg rt.pre dflt r.reg o with
+    | (reg1, out) =>
+      let clears : Bool :=
+        match o, out with
+        | .add _ _, _ => cc.addClears
+        | .remove _, .done => cc.removeClears
+        | .modify _ _, .done => cc.modifyClears
+        | .reload, _ => cc.reloadEmpty
+        | _, _ => false
+      ({ reg := reg1, cache := if clears then [] else r.cache }, .out out)
+
+def runS [Mul K] (cfg : Cfg) (cc : CacheCfg) (rt : Route K) (dflt : Dict (Entry K)) (r : RegS K) :
+    List (OpS K) → RegS K × List (OutS K)
+  | [] => (r, [])
+  | op :: ops =>
+    let (r1, o) := stepS cfg cc rt dflt r op
+    let (r2, os) := runS cfg cc rt dflt r1 ops
+    (r2, o :: os)
+
+/-- `Unit(name, registry=fresh registry holding exactly the table c)` -/
+def freshUnit [Mul K] (rt : Route K) (c : Contents K) (name : Name) : Option (UnitR K) :=
+  if name = 0 then some .one
+  else match rt.symbolOf name with
+    | none => none
+    | some s =>
+      match lookupF rt.pre c s with
+      | some e => some (.sym s e)
+      | none => none
+
+def absStepS (dflt : Dict (Entry K)) (c : Contents K) : OpS K → Contents K
+  | .unit _ => c
+  | .op o => absStep dflt c o
+
+def absOutS [Mul K] (rt : Route K) (c : Contents K) : OpS K → OutS K
+  | .unit name => .unit (freshUnit rt c name)
+  | .op o => .out (absOut rt.pre c o)
+
+def absRunS [Mul K] (rt : Route K) (dflt : Dict (Entry K)) (c : Contents K) :
+    List (OpS K) → Contents K × List (OutS K)
+  | [] => (c, [])
+  | op :: ops =>
+    let (c2, os) := absRunS rt dflt (absStepS dflt c op) ops
+    (c2, absOutS rt c op :: os)
+
+def freshS (t : Dict (Entry K)) : RegS K := { reg := fresh t, cache := [] }
+
 end Unyt.NamesHist
